@@ -486,7 +486,7 @@ def validate_hist(ctx, specdir, module, cfg, histfile, tag, max_events=None, see
 
 def conc_component(ctx, comp, specdir, mcmod, emit_cfg, gocmd, overlays, shim_files, hist_spec=("FifoHist", "FifoHist", "Hist.cfg"),
                    walk_mode="probe", sample_n=300, real_n=300, hist_budget=150000, extra_mc=(), key_prefix=None, maxlen=60,
-                   explore_budget=3000):
+                   explore_budget=3000, sync_files=()):
     """E3 (deterministic scheduler): every edge of the step-level TLC graph replayed on the real code;
     divergences explored and judged by the abstract history spec; sampled schedules; E4 real
     goroutines under the race detector."""
@@ -496,6 +496,7 @@ def conc_component(ctx, comp, specdir, mcmod, emit_cfg, gocmd, overlays, shim_fi
         ctx.model_check(specdir, mod, cfg)
     r = ctx.model_check(specdir, mcmod, emit_cfg, emit=True, tag=comp + "_emit", timeout=1800)
     ctx.copy_repo(overlays)
+    ctx.sync_files = tuple(sync_files)
     ctx.add_shim(shim_files)
     binp = ctx.go_build(gocmd)
     outd = os.path.join(ctx.out, comp)
